@@ -72,6 +72,9 @@ func (c30Engine) Generate(seed uint64, tier string) *simrun.Case {
 		for i := 0; i < nf; i++ {
 			a = append(a, int64(r.Intn(len(c30Cols))), int64(r.Intn(len(c30Ops))), int64(r.Intn(12)))
 		}
+		// trailing argument: position+1 at which a nil *Filter is passed among the filters (0 = none). Callers in the
+		// server build filter lists in which any entry may be nil ("no restriction on this column"); the store skips them.
+		a = append(a, []int64{0, 0, 0, 1, 2, 3}[r.Intn(6)])
 		return a
 	}
 	for i := 0; i < n; i++ {
@@ -85,7 +88,7 @@ func (c30Engine) Generate(seed uint64, tier string) *simrun.Case {
 		case x < 73:
 			f := filters(2)
 			if f[0] == 0 && r.Chance(3, 4) {
-				f = []int64{1, 0, 0, int64(r.Intn(12))}
+				f = []int64{1, 0, 0, int64(r.Intn(12)), []int64{0, 0, 1, 2}[r.Intn(4)]}
 			}
 			c.Ops = append(c.Ops, simrun.Op{K: "delete", A: f})
 		case x < 78:
@@ -240,9 +243,12 @@ func (c30Engine) Execute(t *testing.T, c *simrun.Case, keepLog bool) *simrun.Out
 	var model []Rec
 	var sortCols [2][]string
 	var hist []string
-	mk := func(h *resources.ResHandle, fs []c30Filter) []*resources.Filter {
+	mk := func(h *resources.ResHandle, fs []c30Filter, nilpos int) []*resources.Filter {
 		var out []*resources.Filter
-		for _, f := range fs {
+		for k, f := range fs {
+			if nilpos == k+1 {
+				out = append(out, nil)
+			}
 			switch f.op {
 			case "=":
 				out = append(out, h.Equals(f.col, f.val))
@@ -254,7 +260,20 @@ func (c30Engine) Execute(t *testing.T, c *simrun.Case, keepLog bool) *simrun.Out
 				out = append(out, h.GreaterThan(f.col, f.val))
 			}
 		}
+		if nilpos > len(fs) {
+			out = append(out, nil)
+		}
 		return out
+	}
+	// nilPos extracts the trailing nil-position argument of a filter argument list [nf, (col,op,val) x nf, nilpos]
+	nilPos := func(a []int64) int {
+		if len(a) == 0 {
+			return 0
+		}
+		if i := 1 + 3*int(a[0]); i < len(a) {
+			return int(a[i])
+		}
+		return 0
 	}
 	fail := func(i int, op simrun.Op, format string, a ...any) {
 		out.Fail("C30/"+strings.SplitN(format, ":", 2)[0], "op %d (%s): "+format+" ; history so far: %s", append([]any{i, op}, append(a, strings.Join(hist, " | "))...)...)
@@ -287,7 +306,7 @@ func (c30Engine) Execute(t *testing.T, c *simrun.Case, keepLog bool) *simrun.Out
 			}
 		case "read":
 			fs := c30Filters(op.A)
-			got, err := h.Read(mk(h, fs)...)
+			got, err := h.Read(mk(h, fs, nilPos(op.A))...)
 			var want []Rec
 			for _, m := range model {
 				if c30Match(m, fs) {
@@ -352,7 +371,7 @@ func (c30Engine) Execute(t *testing.T, c *simrun.Case, keepLog bool) *simrun.Out
 		case "update":
 			rec := c30Rec(op.A[:6])
 			fs := c30Filters(op.A[6:])
-			err := h.Update(&rec, mk(h, fs)...)
+			err := h.Update(&rec, mk(h, fs, nilPos(op.A[6:]))...)
 			hist = append(hist, fmt.Sprintf("update %v := %s -> %v", fs, c30Key(rec), err))
 			// every matching row becomes rec, Name included: the key stays unique only if at most
 			// one row matches and no other row already has that name; otherwise the statement
@@ -383,7 +402,7 @@ func (c30Engine) Execute(t *testing.T, c *simrun.Case, keepLog bool) *simrun.Out
 			}
 		case "delete":
 			fs := c30Filters(op.A)
-			n, err := h.Delete(mk(h, fs)...)
+			n, err := h.Delete(mk(h, fs, nilPos(op.A))...)
 			var keep []Rec
 			for _, m := range model {
 				if !c30Match(m, fs) {
